@@ -354,7 +354,7 @@ PROPS["C12"] = dict(
         dict(name="prod-hsw", src="mutation_harness.cpp", cfg="prod-hsw", env={}, args=["--prop", "C12"]),
         dict(name="prod-wsm", src="mutation_harness.cpp", cfg="prod-wsm", env={}, args=["--prop", "C12"]),
     ],
-    require=["operations-checked", "op:CreateMap", "op:DestroyMap", "op:RemoveMember(tail)-while-map-exists", "op:erase-full-or-empty-range",
+    require=["histories-on-a-small-chunk-pool(64..1024 bytes)", "operations-checked", "op:CreateMap", "op:DestroyMap", "op:RemoveMember(tail)-while-map-exists", "op:erase-full-or-empty-range",
              "op:growth-from-capacity-0", "op:move-assign-from-own-subnode", "op:Swap-with-own-subnode", "op:CopyFrom",
              "histories-with-duplicate-keys(no-map)", "lookups-checked", "op:reserve-below-size", "op:Clear-then-reuse", "AtPointer-checked",
              "histories-starting-from-a-parsed-document"],
@@ -376,7 +376,7 @@ PROPS["C13"] = dict(
         dict(name="schema-ledger", src="schema_harness.cpp", cfg="asan-hsw", env=ASAN_ENV,
              args=["--prop", "C13", "--streams", "kind_matrix_ledger,generated_pairs_ledger,invalid_text_pool,invalid_text_ledger"]),
     ],
-    require=["ParseSchema-on-invalid-text", "invalid-text:rejected", "operations-checked", "op:document-move", "op:document-swap", "op:Parse(valid)", "op:Parse(invalid)", "op:ParseOnDemand",
+    require=["ParseSchema-on-invalid-text", "invalid-text:rejected", "lazy-parse-or-merge-of-invalid-text(ledger)", "pool-over-ledger:move-assign-between-handles-of-one-pool", "operations-checked", "op:document-move", "op:document-swap", "op:Parse(valid)", "op:Parse(invalid)", "op:ParseOnDemand",
              "copy-independence-checks", "ledger-quiescent-checks", "destruction-at-random-step", "op:CreateMap", "op:CopyFrom",
              "handover(Swap/move)-then-destroy-former-holder", "repeated-applications(2..4 texts)",
              "lazy-merge-on-ledger-allocator", "lazy-merge:escaped-keys"],
@@ -470,7 +470,7 @@ PROPS["C16"] = dict(
         dict(name="asan-hsw", src="pool_harness.cpp", cfg="asan-hsw", env=ASAN_NOLEAK_ENV),
         dict(name="prod-hsw", src="pool_harness.cpp", cfg="prod-hsw", env={}),
     ],
-    require=["op:request-that-cannot-be-satisfied(near SIZE_MAX)", "op:Malloc", "op:Realloc-in-place", "op:Realloc-moved", "op:Realloc-shrink-or-same", "op:Clear", "op:copy-handle", "op:move-handle",
+    require=["op:request-that-cannot-be-satisfied(near SIZE_MAX)", "op:move-assign-between-handles-of-one-pool", "op:Malloc", "op:Realloc-in-place", "op:Realloc-moved", "op:Realloc-shrink-or-same", "op:Clear", "op:copy-handle", "op:move-handle",
              "op:destroy-handle", "op:zero-size-request", "pool:user-buffer", "pool:user-buffer-misaligned", "pool:adaptive-policy",
              "pool:simple-policy", "event:new-chunk", "content-reverifications", "op:request-larger-than-chunk",
              "documents-parsed-on-small-chunk-pools", "pool:default-constructed-base-allocator"],
